@@ -391,7 +391,10 @@ def forest_strategy(draw, tier):
     return {"p": p, "base": base, "xyz": xyz, "r": r, "type": ty,
             "fix": draw(st.sampled_from(["off", "somas", "nearest"])),
             "via": draw(st.sampled_from(["read_swc", "read_swc", "dataframe"])),
-            "src": draw(st.sampled_from(["text", "path"])), "reads": draw(st.sampled_from([1, 1, 3]))}
+            "src": draw(st.sampled_from(["text", "path"])), "reads": draw(st.sampled_from([1, 1, 3])),
+            # several roots traced from the same point (fragments that start at one place); a failed read just before
+            "roots_at_one_point": draw(st.integers(0, 3)) == 0,
+            "failed_read_before": draw(st.sampled_from([None, None, None, "rows-then-garbage", "truncated-row"]))}
 
 
 def run_forest(case, ctx):
@@ -404,6 +407,16 @@ def run_forest(case, ctx):
     p, base, xyz, r, ty, fix, via = (case[k] for k in ("p", "base", "xyz", "r", "type", "fix", "via"))
     n = len(p)
     roots = [i for i, q in enumerate(p) if q == -1]
+    if case.get("roots_at_one_point") and len(roots) >= 3:
+        xyz = [list(v) for v in xyz]
+        for i in roots[2:]:
+            xyz[i] = list(xyz[roots[1]])  # every root after the first shares the second root's position
+        ctx.cls("several-roots-at-one-point")
+    if case.get("failed_read_before"):
+        from vlib import gen_swc
+
+        gen_swc.fail_some_reads(ctx.tmpdir, case["failed_read_before"])
+        ctx.cls("read-after-a-failed-read")
     first_row_root = roots[0] == 0
     _, _, _, _, _, blocks = ref_table(p)
     sizes = {}
@@ -544,5 +557,6 @@ SUBCHECKS = [
     Sub("forest", forest_strategy, run_forest, quick=3000, thorough=30000, shards_quick=4,
         required={"fix:off": 100, "fix:somas": 100, "fix:nearest": 100, "base:1": 100, "base:k": 100,
                   "first-root-later": 100, "root-in-row-0": 100, "via:dataframe": 100,
-                  "forest-read-from-a-file": 300, "same-forest-read-again": 200}),
+                  "forest-read-from-a-file": 300, "same-forest-read-again": 200, "several-roots-at-one-point": 60,
+                  "read-after-a-failed-read": 300}),
 ]
